@@ -106,6 +106,10 @@ type Case struct {
 	Repeat   int     `json:"repeat,omitempty"`   // executions per case (schedule diversity)
 	BigCount int     `json:"bigcount,omitempty"` // >0: Jobs is a template, replicated to BigCount independent jobs
 	Procs    int     `json:"procs,omitempty"`    // >0: GOMAXPROCS to run the case under (default-limit cases)
+	// CancelAtGot > 0: the root context is cancelled from inside the hook point
+	// "a worker has received a job and not yet looked at it", at its
+	// CancelAtGot-th occurrence (needs the verif build tag).
+	CancelAtGot int `json:"cancelatgot,omitempty"`
 	// ShareDeps: jobs that list the same dependencies pass the very same
 	// Dependencies slice to Enqueue (only when one goroutine enqueues).
 	ShareDeps bool `json:"sharedeps,omitempty"`
@@ -377,6 +381,9 @@ func GenCase(t *rapid.T, p Profile) *Case {
 		}
 	}
 	c.ShareDeps = prob(t, "sharedeps", 0.3)
+	if cancelCase && hooksEnabled && c.CtxMode == MNone && prob(t, "cancelatgot", 0.35) {
+		c.CancelAtGot = 1 + uniform(t, "cancelatgotn", nj)
+	}
 	if prob(t, "gatecase", p.PGate) {
 		makeGateCase(t, c)
 	} else if prob(t, "barriercase", p.PBarrier) {
@@ -638,6 +645,9 @@ func (c *Case) Labels() []string {
 		if j.Pace == PAwait && len(j.Deps) > 0 {
 			late = true
 		}
+	}
+	if c.CancelAtGot > 0 {
+		add("cancel:at-worker-got-job")
 	}
 	if c.ShareDeps && c.ConcEnq <= 1 {
 		sharedSeen := map[string]bool{}
